@@ -20,23 +20,24 @@ static std::vector<std::string> list(const std::string &dir, const char *ext) {
   return r;
 }
 
-static int run_freeze(const std::string &dir, uint64_t seed, long n) {
+static int run_freeze(const std::string &dir, uint64_t seed, long n, const char *prefix, int force_sub) {
   vrt::Rng r(seed);
-  std::ofstream idx(dir + "/index.ndjson");
+  std::ofstream idx(dir + "/index.ndjson", std::ios::app);   // the corpus only ever grows
   GenParams gp; gp.max_points = 30; gp.max_faces = 40;
   long k = 0;
   for (long i = 0; k < n && i < 20 * n; ++i) {
-    const bool mesh = r.coin(2, 3);
+    const bool mesh = force_sub >= 0 ? true : r.coin(2, 3);
     Geom g = gen_geometry(r, mesh, gp);
     Opt o = gen_options(r, g);
+    if (force_sub >= 0) o.submethod = force_sub;
     // cover every method / speed systematically over the corpus
-    o.method = (int)(i % 2); o.es = o.ds = (int)(i % 11); o.expert = true;
+    o.method = force_sub >= 0 ? 1 : (int)(i % 2); o.es = o.ds = (int)(i % 11); o.expert = true;
     if (!mesh && o.method == 1) for (int a = 0; a < g.pc->num_attributes(); ++a) if (g.pc->attribute(a)->data_type() == DT_FLOAT32 && o.qbits[a] == 0) o.qbits[a] = 11;
     Encoded e = encode(g, o);
     if (!e.ok || e.bytes.size() > 4000) continue;
     Decoded d = decode(e.bytes.data(), e.bytes.size());
     if (!d.ok) continue;
-    char name[64]; snprintf(name, sizeof name, "g%04ld.drc", k++);
+    char name[64]; snprintf(name, sizeof name, "%s%04ld.drc", prefix, k++);
     std::ofstream f(dir + "/" + name, std::ios::binary); f.write(e.bytes.data(), e.bytes.size());
     idx << "{\"file\":\"" << name << "\",\"digest\":" << h64(geom_digest(*d.pc, d.is_mesh)) << ",\"np\":" << d.pc->num_points() << ",\"nf\":" << (d.is_mesh ? d.mesh()->num_faces() : 0)
         << ",\"gt\":\"" << (mesh ? "mesh" : "pc") << "\",\"method\":" << (int)(unsigned char)e.bytes[8] << ",\"es\":" << o.es << ",\"pred\":" << o.pred << ",\"builtin\":" << (o.builtin ? "true" : "false") << "}\n";
@@ -94,7 +95,7 @@ static int run_versions(const std::string &dir) {
 }
 
 int main(int argc, char **argv) {
-  if (argc >= 5 && !strcmp(argv[1], "freeze")) return run_freeze(argv[2], strtoull(argv[3], 0, 10), atol(argv[4]));
+  if (argc >= 5 && !strcmp(argv[1], "freeze")) return run_freeze(argv[2], strtoull(argv[3], 0, 10), atol(argv[4]), argc >= 6 ? argv[5] : "g", argc >= 7 ? atoi(argv[6]) : -1);
   if (argc >= 3 && !strcmp(argv[1], "check")) return run_check(argv[2]);
   if (argc >= 3 && !strcmp(argv[1], "digest")) { check_one(argv[2], slurp(argv[2]), nullptr); return 0; }
   if (argc >= 3 && !strcmp(argv[1], "versions")) return run_versions(argv[2]);
